@@ -1,8 +1,53 @@
 #![cfg(kani)]
-//! C18: stream hashing fails closed (scripted nondeterministic reader over a fixed stream).
+//! C18: stream hashing fails closed.
+//!
+//! Unit under test: `hash_stream_common` (the read loop).  Its environment is modelled on
+//! both sides: the reader is a scripted nondeterministic `Read`, and the generator's
+//! `update` / `finalize` are replaced (Kani stubbing) by a RECORDING model -- `update`
+//! appends the bytes it is given to a log, `finalize` returns a hash object that spells out
+//! the log (or the size-mismatch error when a declared size disagrees with the log length).
+//! That the real `update` / `finalize` compute the right hash of the bytes they are given
+//! is C01 / C03; what is decided here is that the read loop hands over exactly the delivered
+//! bytes, in order, drains the reader to its end, and lets every I/O error through.
 use super::*;
+use core::sync::atomic::{AtomicU8, AtomicUsize, Ordering};
 
-/// A reader over a FIXED (symbolic) stream of `total` bytes whose every `read` delivers an
+const Z: AtomicU8 = AtomicU8::new(0);
+static LOG: [AtomicU8; 8] = [Z; 8];
+static LOG_N: AtomicUsize = AtomicUsize::new(0);
+static HINT: AtomicUsize = AtomicUsize::new(usize::MAX); // usize::MAX = no declared size
+
+fn stub_update<'a>(g: &'a mut Generator, buffer: &[u8]) -> &'a mut Generator {
+    let mut i = 0;
+    while i < buffer.len() {
+        let n = LOG_N.load(Ordering::Relaxed);
+        if n < 8 {
+            LOG[n].store(buffer[i], Ordering::Relaxed);
+        }
+        LOG_N.store(n + 1, Ordering::Relaxed);
+        i += 1;
+    }
+    g
+}
+
+fn stub_finalize(_g: &Generator) -> Result<RawFuzzyHash, GeneratorError> {
+    let n = LOG_N.load(Ordering::Relaxed);
+    let hint = HINT.load(Ordering::Relaxed);
+    if hint != usize::MAX && hint != n {
+        return Err(GeneratorError::FixedSizeMismatch);
+    }
+    let mut bh = [0u8; 8];
+    let mut i = 0;
+    while i < 8 {
+        if i < n {
+            bh[i] = LOG[i].load(Ordering::Relaxed) & 0x3f;
+        }
+        i += 1;
+    }
+    Ok(RawFuzzyHash::new_from_internals_near_raw(0, &bh[..if n < 8 { n } else { 8 }], &[]))
+}
+
+/// A reader over a FIXED symbolic stream of `total` bytes whose every `read` delivers an
 /// arbitrary non-empty chunk (<= M bytes, <= buf.len()) of what remains, returns Ok(0) only
 /// at the end of the stream, and fails with an arbitrary error kind at read number
 /// `fail_at` (if that read happens).  All choices are made up front, so that the expected
@@ -17,7 +62,7 @@ struct ScriptedReader {
     fired: bool,
 }
 
-const M: usize = 2;
+const M: usize = 3;
 
 impl Read for ScriptedReader {
     fn read(&mut self, buf: &mut [u8]) -> std::io::Result<usize> {
@@ -59,11 +104,13 @@ fn any_kind() -> std::io::ErrorKind {
     }
 }
 
-fn run(hint: Option<u64>) {
-    // The stream CONTENT is concrete (what is decided here is the read loop: chunking, end of
-    // stream, failures, the size hint); the generator itself is C01/C03's subject, and a
-    // symbolic content would put its whole piece machinery into every read.
-    let content: [u8; 6] = [0x11, 0x22, 0x33, 0x44, 0x55, 0x66];
+fn run(hint: Option<usize>) {
+    let content: [u8; 6] = kani::any();
+    let mut i = 0;
+    while i < 6 {
+        kani::assume(content[i] < 64);
+        i += 1;
+    }
     let total: usize = kani::any();
     kani::assume(total <= 6);
     let chunk: [usize; 8] = kani::any();
@@ -74,7 +121,7 @@ fn run(hint: Option<u64>) {
     }
     let fail_at: usize = kani::any();
     kani::assume(fail_at <= 8);
-    // number of data reads a draining consumer performs, then one more read sees the end
+    // number of data reads a draining consumer performs; one more read then sees the end
     let mut data_reads = 0usize;
     let mut served = 0usize;
     let mut i = 0;
@@ -86,52 +133,81 @@ fn run(hint: Option<u64>) {
         i += 1;
     }
     let must_fail = fail_at <= data_reads; // the failing read is among the data_reads + 1 reads
+    LOG_N.store(0, Ordering::Relaxed);
+    HINT.store(match hint { Some(h) => h, None => usize::MAX }, Ordering::Relaxed);
     let mut rd = ScriptedReader { content, total, chunk, fail_at, pos: 0, reads: 0, fired: false };
     let mut gen = Generator::new();
-    if let Some(h) = hint {
-        kani::assume(gen.set_fixed_input_size(h).is_ok());
-    }
     let r = hash_stream_common(&mut gen, &mut rd);
-    // reference: the whole stream fed to a fresh generator in one call
-    let mut g2 = Generator::new();
-    g2.update(&content[..total]);
+    let logged = LOG_N.load(Ordering::Relaxed);
     match r {
         Ok(h) => {
             assert!(!must_fail); // a read error at any point => no hash
-            assert!(hint.is_none() || hint == Some(total as u64));
-            let e = g2.finalize();
-            assert!(e.is_ok() && h.full_eq(&e.unwrap())); // hash of ALL delivered bytes
-            core::mem::forget(h);
+            assert!(hint.is_none() || hint == Some(total));
+            // the hash is that of ALL the bytes of the stream, in order
+            assert!(logged == total && h.block_hash_1_len() == total);
+            let mut i = 0;
+            while i < 6 {
+                if i < total {
+                    assert!(h.block_hash_1()[i] == content[i]);
+                }
+                i += 1;
+            }
         }
         Err(GeneratorOrIOError::IOError(e)) => {
             assert!(must_fail && rd.fired);
             core::mem::forget(e);
         }
         Err(GeneratorOrIOError::GeneratorError(e)) => {
-            // only a hint that disagrees with the delivered byte count can cause this
+            // only a declared size that disagrees with the delivered byte count can cause this
             assert!(!must_fail);
-            assert!(hint.is_some() && hint != Some(total as u64));
+            assert!(logged == total);
+            assert!(hint.is_some() && hint != Some(total));
             assert!(e == GeneratorError::FixedSizeMismatch);
         }
     }
     kani::cover!(must_fail && fail_at == 2 && total >= 3);
     kani::cover!(!must_fail && total == 6 && data_reads == 6);
+    kani::cover!(!must_fail && total == 6 && data_reads == 2);
     kani::cover!(!must_fail && total == 0);
     kani::cover!(must_fail && fail_at == data_reads && total >= 2);
 }
 
-/// hash_stream_common without a hint (what hash_stream does).
+/// hash_stream_common without a declared size (what hash_stream does).
 #[kani::proof]
 #[kani::unwind(66)]
+#[kani::stub(crate::internals::generate::Generator::update, stub_update)]
+#[kani::stub(crate::internals::generate::Generator::finalize, stub_finalize)]
 fn c18_stream_no_hint() {
     run(None)
 }
 
-/// with a pre-set hint (what hash_file does with the metadata length).
+/// with a declared size (what hash_file does with the metadata length).
 #[kani::proof]
 #[kani::unwind(66)]
+#[kani::stub(crate::internals::generate::Generator::update, stub_update)]
+#[kani::stub(crate::internals::generate::Generator::finalize, stub_finalize)]
 fn c18_stream_with_hint() {
-    let h: u64 = kani::any();
+    let h: usize = kani::any();
     kani::assume(h <= 8);
     run(Some(h))
+}
+
+/// hash_stream is hash_stream_common on a fresh generator; the real (unstubbed) functions on
+/// an EMPTY stream: no byte, no error => the hash of the empty input.
+#[kani::proof]
+#[kani::unwind(66)]
+fn c18_hash_stream_empty_real() {
+    let mut rd = ScriptedReader { content: [0; 6], total: 0, chunk: [1; 8], fail_at: 8, pos: 0, reads: 0, fired: false };
+    let r = hash_stream(&mut rd);
+    match r {
+        Ok(h) => {
+            assert!(h.block_hash_1_len() == 0 && h.block_hash_2_len() == 0 && h.log_block_size() == 0);
+            assert!(rd.reads == 1);
+        }
+        Err(e) => {
+            core::mem::forget(e);
+            assert!(false);
+        }
+    }
+    kani::cover!(true);
 }
